@@ -41,7 +41,8 @@ type cacheZone struct {
 	gen     map[string]int
 	ttls    map[string][][]int
 	up      bool
-	failSrv bool // failure as DNS SERVFAIL instead of HTTP 400
+	failSrv bool // failure as a DNS rcode instead of HTTP 400
+	failRc  int  // the rcode (2 SERVFAIL, 9 NOTAUTH ...)
 	cnameOnly bool
 	queries []Ev
 	log     func(Ev)
@@ -68,7 +69,11 @@ func (z *cacheZone) answer(id int, name string, qtype int) ([]byte, int) {
 	z.queries = append(z.queries, Ev{"k": key, "gen": g})
 	if !z.up {
 		if z.failSrv {
-			return wResponse(id, name, qtype, 2, nil), 200
+			rc := z.failRc
+			if rc == 0 {
+				rc = 2
+			}
+			return wResponse(id, name, qtype, rc, nil), 200
 		}
 		return nil, 400
 	}
@@ -132,6 +137,7 @@ func replayCacheCase(c *cacheCase, idx int, srv *dohServer, z *cacheZone, clock 
 	z.ttls = map[string][][]int{"n1": c.Ttls, "n2": {{2}, {2}}}
 	z.up = true
 	z.failSrv = idx%2 == 0
+	z.failRc = []int{2, 9, 5, 23}[(idx/2)%4]
 	z.cnameOnly = idx%5 == 0
 	z.queries = nil
 	typ := z.typ
@@ -262,6 +268,7 @@ func TestCacheConcurrent(t *testing.T) {
 		srv := newDoHServer(z.answer)
 		clock.Store(0)
 		res, _ := ech.NewResolver(srv.url())
+		z.failRc = []int{2, 9}[r.Intn(2)]
 		G := []int{2, 3, 4}[r.Intn(3)]
 		if os.Getenv("VH_BIGG") != "" {
 			G = 16 // race-detector-only rounds: too many unlogged interleavings for trace validation
@@ -289,6 +296,21 @@ func TestCacheConcurrent(t *testing.T) {
 				log(Ev{"e": "toggle"})
 			}
 			var wg sync.WaitGroup
+			stopClock := make(chan struct{})
+			if os.Getenv("VH_BIGG") != "" {
+				// race-only rounds: the clock also moves while lookups are in flight (readers at the TTL boundary)
+				go func() {
+					for {
+						select {
+						case <-stopClock:
+							return
+						default:
+							clock.Add(1)
+							time.Sleep(50 * time.Microsecond)
+						}
+					}
+				}()
+			}
 			for g := 1; g <= G; g++ {
 				wg.Add(1)
 				go func(g int) {
@@ -318,6 +340,7 @@ func TestCacheConcurrent(t *testing.T) {
 				}(g)
 			}
 			wg.Wait()
+			close(stopClock)
 		}
 		srv.Close()
 		for _, e := range evs {
